@@ -277,6 +277,11 @@ pub fn stop_macro(
     }
 }
 
+/// Whether the macro with this id is the one being recorded right now.
+pub fn is_recording_macro(record_state: &Option<DynamicMacroRecordState>, macro_id: u16) -> bool {
+    (record_state.as_ref()).is_some_and(|state| state.starting_macro_id == macro_id)
+}
+
 pub fn play_macro(
     macro_id: u16,
     replay_state: &mut Option<DynamicMacroReplayState>,
